@@ -10,7 +10,11 @@ dropped was prunable when dropped; what every open reader observes through the p
 when it was opened.  Immutability: every public callable (and in-place operator, attribute store/delete) of every
 object reachable from a snapshot is enumerated from the classes on every run and called with a pool of arguments;
 a call that mutates a mutable twin of the object must raise on the snapshot object, and no call may change the deep
-dump of the snapshot (enumeration, not proof).
+dump of the snapshot (enumeration, not proof).  The same attack is run after generated write histories (delegations
+created / removed above existing names, nested cuts, node deletes) on every node and rdataset object reachable through
+every public route (zone.get_node / find_node / [] / get / nodes / items / values / iterate_rdatasets / get_rdataset,
+version.nodes of every retained version, reader.version, txn.get_node / get / iterate_*), with open readers' deep dumps
+compared before and after.
 """
 import glob
 import json
@@ -35,7 +39,10 @@ RULE = (
     "concurrently open readers (opened on the latest version, by id - retained, pruned or never existing - or by SOA "
     "serial), one writer at a time (commit with changes, empty commit, rollback, replacement writers), all policy kinds "
     "(default, set_max_versions(n) for n in -1..4, None, arbitrary predicates given by id sets, predicates returning None); "
-    "a case is non-trivial if its key (zone class, operation list) is new and it has at least two commits and one reader"
+    "a case is non-trivial if its key (zone class, operation list) is new and it has at least two commits and one reader; "
+    "immutability histories: 2..5 write transactions over a 4-level name tree (NS added / removed / node deleted at, above and "
+    "below existing names, so glue re-flagging, nested cuts and whole-node deletes occur), readers pinned before and after, "
+    "then every node / rdataset object handed out by every public route of every retained version is attacked"
 )
 TRUSTED_BASE = [
     "Python reference semantics: a read transaction keeps a reference to its version object",
@@ -856,7 +863,7 @@ def gen_immhist(rng, zk):
             else:
                 ops.append(["deltxt", rng.below(len(TREE)), 0])
         txns.append(ops)
-    readers_at = sorted(set(rng.below(ntx) for _ in range(rng.range(1, 2))))
+    readers_at = sorted(set([rng.below(ntx)] + ([ntx - 1] if rng.chance(1, 2) else [])))
     return {"kind": "immhist", "zone": zk, "txns": txns, "readers_at": readers_at, "keep_all": rng.chance(2, 3)}
 
 
@@ -1055,7 +1062,7 @@ def run(ctx: Ctx):
             eval_case(ctx, c)
     for zk in ZONES:
         for txns in IMMHIST_BOUNDARY:
-            for ra in ([0], [len(txns) - 2]):
+            for ra in ([0], [len(txns) - 1]):
                 c = {"kind": "immhist", "zone": zk, "txns": txns, "readers_at": ra, "keep_all": True}
                 ctx.case(case_key(c))
                 eval_case(ctx, c)
@@ -1076,7 +1083,7 @@ def replay(ctx: Ctx, obj: dict):
 
 
 LEVEL = {
-    "text": "Lean 4 theorems, by induction over arbitrary operation lists (reader open by latest/id/serial, close, writer open, commit, empty commit, rollback, set_max_versions, set_pruning_policy with an arbitrary predicate), about an executable model of dns/versioned.py's version deque, reader set and _prune_versions_unlocked: version ids strictly increase and are consecutive; the retained versions are a suffix of everything ever committed (a contiguous run containing the newest); every version pinned by an open reader is retained; pruning drops exactly the longest prefix the policy allows below the smallest pin / the newest, and in every reachable state nothing prunable is left at the front; what a reader observes never changes while it is open. The model is tied to both dns.versioned.Zone and dns.btreezone.Zone by a differential correspondence check after every operation. Immutability of everything reachable from a snapshot is established by enumerating, on every run, every public callable, in-place operator and attribute store of every reachable object and checking that mutating calls raise and nothing changes (partial: enumeration, not proof).",
+    "text": "Lean 4 theorems, by induction over arbitrary operation lists (reader open by latest/id/serial, close, writer open, commit, empty commit, rollback, set_max_versions, set_pruning_policy with an arbitrary predicate), about an executable model of dns/versioned.py's version deque, reader set and _prune_versions_unlocked: version ids strictly increase and are consecutive; the retained versions are a suffix of everything ever committed (a contiguous run containing the newest); every version pinned by an open reader is retained; pruning drops exactly the longest prefix the policy allows below the smallest pin / the newest, and in every reachable state nothing prunable is left at the front; what a reader observes never changes while it is open. The model is tied to both dns.versioned.Zone and dns.btreezone.Zone by a differential correspondence check after every operation. Immutability of everything reachable from a snapshot is established by enumerating, on every run, every public callable, in-place operator and attribute store of every reachable object and checking that mutating calls raise and nothing changes, both on a fixed snapshot and after generated write histories (cuts created/removed above existing names, nested cuts, node deletes) through every public route to every retained version's nodes (partial: enumeration, not proof).",
     "note": "Trusted: Lean kernel + standard axioms; the statements in lean/Props/C11.lean; the correspondence harness and its generators; Python reference semantics (a transaction keeps its version object alive). Versions are persistent values in the model, so snapshot isolation is true by construction there and its real content is carried by the correspondence check and the enumeration. Writer admission under concurrency is C12.",
     "technique": "Lean 4 proof (state invariants by induction over operation lists, exact characterisation of the pruning loop) + model-vs-implementation correspondence + enumeration of the mutator surface",
     "design_ref": "DESIGN.md §7 C11",
